@@ -5,3 +5,6 @@ def roundtrip_jobs(protos, tier):
 
 def panic_jobs(tier):
     return []
+
+def tamper_jobs(tier):
+    return []
